@@ -288,8 +288,20 @@ def racing_pair_inside(ctx, rng, hid):
     from common import App
     ev = lambda uid, n: ("BEGIN:VCALENDAR\r\nVERSION:2.0\r\nPRODID:x\r\nBEGIN:VEVENT\r\nUID:%s\r\nDTSTAMP:20240101T000000Z\r\n"     # noqa: E731
                          "DTSTART:20240102T100000Z\r\nSUMMARY:v%d\r\nEND:VEVENT\r\nEND:VCALENDAR\r\n" % (uid, n))
-    stype = rng.choice(["multifilesystem", "multifilesystem_nolock", "multifilesystem_nolock"])
-    with App({"auth": {"type": "none"}, "storage": {"type": stype}}) as app:
+    stype = rng.choice(["multifilesystem", "multifilesystem_nolock", "multifilesystem_nolock", "two-servers"])
+    two = stype == "two-servers"
+    # "two-servers": two server instances on one storage folder, each with its own (node-local) cache folder; the second writer goes to the
+    # other instance - what excludes them is the lock file in the shared storage folder
+    conf = {"auth": {"type": "none"}, "storage": {"type": "multifilesystem" if two else stype}}
+    if two:
+        conf["storage"].update({"filesystem_cache_folder": "@tmp", "use_cache_subfolder_for_item": "True"})
+    with App(conf) as app:
+        app2 = app
+        if two:
+            os.makedirs(app.folder + "-cache2", exist_ok=True)
+            app.extra_dirs = getattr(app, "extra_dirs", []) + [app.folder + "-cache2"]
+            app2 = App({"auth": {"type": "none"}, "storage": {"type": "multifilesystem", "filesystem_cache_folder": app.folder + "-cache2",
+                                                             "use_cache_subfolder_for_item": "True"}}, folder=app.folder)
         app.request("MKCALENDAR", "/u/c/", login="u:pw")
         st, hd, _ = app.request("PUT", "/u/c/a.ics", ev("a", 0), login="u:pw", CONTENT_TYPE="text/calendar")
         etag = hd.get("ETag")
@@ -310,6 +322,7 @@ def racing_pair_inside(ctx, rng, hid):
         orig_upload, orig_delete = cls.upload, cls.delete
         storage = app.storage
         orig_acquire = storage.acquire_lock
+        orig_acquire2 = app2.storage.acquire_lock
         state = {"tid": threading.get_ident(), "b": None, "b_tid": None, "b_status": None, "b_done_inside": None, "na": 0, "nb": 0}
         b_ready, a_inside = threading.Event(), threading.Event()
 
@@ -317,7 +330,7 @@ def racing_pair_inside(ctx, rng, hid):
             state["b_tid"] = threading.get_ident()
             try:
                 m, p, b, env = kinds[kb](2)
-                state["b_status"] = app.request(m, p, b, login="u:pw", **env)[0]
+                state["b_status"] = app2.request(m, p, b, login="u:pw", **env)[0]
             finally:
                 b_ready.set()
 
@@ -332,7 +345,7 @@ def racing_pair_inside(ctx, rng, hid):
             elif me == state["b_tid"] and mode == "w":
                 b_ready.set()
                 a_inside.wait(timeout=10)
-            return orig_acquire(mode, user, *a, **k)
+            return (orig_acquire2 if me == state["b_tid"] else orig_acquire)(mode, user, *a, **k)
 
         def hold():
             if threading.get_ident() == state["tid"] and state["b"] is not None and not a_inside.is_set():
@@ -349,6 +362,7 @@ def racing_pair_inside(ctx, rng, hid):
             return orig_delete(self, *a, **k)
         cls.upload, cls.delete = upload, delete
         storage.acquire_lock = gated
+        app2.storage.acquire_lock = gated
         try:
             m, p, b, env = kinds[ka](1)
             sa = app.request(m, p, b, login="u:pw", **env)[0]
@@ -356,6 +370,7 @@ def racing_pair_inside(ctx, rng, hid):
             a_inside.set()
             cls.upload, cls.delete = orig_upload, orig_delete
             storage.acquire_lock = orig_acquire
+            app2.storage.acquire_lock = orig_acquire2
         if state["b"] is not None:
             state["b"].join(timeout=30)
         sb = state["b_status"]
